@@ -278,6 +278,25 @@ for bits in itertools.product([False, True], repeat=7):
         accepted = False
     if accepted != ok:
         VIOLATED, DETAIL = True, f'Configuration with {sorted(kw)} accepted={accepted}'; break
+# ... and the same through the YAML document builder, for every set of sections
+from pyxel.configuration.configuration import _build_configuration
+DET = {'geometry': {'row': 3, 'col': 4}, 'environment': {}, 'characteristics': {}}
+APD = {'geometry': {'row': 3, 'col': 4}, 'environment': {}, 'characteristics': {'roic_gain': 0.8, 'avalanche_gain': 2.0, 'pixel_reset_voltage': 12.0}}
+for bits in itertools.product([False, True], repeat=7):
+    if VIOLATED: break
+    doc = {'pipeline': {}}
+    for k, b in zip(MODES + DETS, bits):
+        if b:
+            doc[k] = ({'readout': {'times': [1.0]}} if k == 'exposure' else {'parameters': [{'key': 'a.b.c', 'values': [1]}]} if k == 'observation' else None) if k in MODES else (dict(APD) if k == 'apd_detector' else dict(DET))
+    if doc.get('calibration', 0) is None and 'calibration' in doc:
+        continue          # building a calibration needs target files: covered by the constructor loop above
+    ok = sum(bits[:3]) == 1 and sum(bits[3:]) == 1
+    try:
+        import copy; _build_configuration(copy.deepcopy(doc)); accepted = True
+    except (ValueError, KeyError, TypeError):
+        accepted = False
+    if accepted != ok:
+        VIOLATED, DETAIL = True, f'YAML document with sections {sorted(k for k in doc if k != "pipeline")} accepted={accepted}'
 """, "expect": "exactly one running mode and exactly one detector, otherwise refused"}
 
 
